@@ -66,7 +66,9 @@ func ParsePath(path string) (PropertyPath, error) {
 		return nil, fmt.Errorf("unexpected %q at offset %d of property path %q", string(data[p.pt.offset:]), p.pt.offset, path)
 	}
 
-	propertyPath := build(path, parsed)
+	// the source text ends up in line comments and string literals of the generated code: a path written over
+	// several lines (the grammar's whitespace includes newlines and tabs) is remembered on one line
+	propertyPath := build(strings.NewReplacer("\n", " ", "\r", " ", "\t", " ").Replace(path), parsed)
 
 	return propertyPath, nil
 }
